@@ -284,6 +284,23 @@ def handleLine (st0 : DrvSt) (line : String) : DrvSt × String :=
             | _ => none
           pure (V.int (if b then 1 else 0)))
         (st, match r with | some vs => (V.list vs).render | none => "(bad-op)")
+      | "store.run", [.list ops] =>
+        let r : Option (List V) := do
+          let rec goSt (s : Store) : List V → Option (List V)
+            | [] => some []
+            | o :: rest => do
+              let op ← match o with
+                | .list [.sym "construct", .sym "none"] => some (SOp.construct none)
+                | .list [.sym "construct", items] => do pure (SOp.construct (some (← items.nats?)))
+                | .list [.sym "decode", items] => do pure (SOp.decode (← items.nats?))
+                | .list [.sym "add", i, it] => do pure (SOp.add (← i.nat?) (← it.nat?))
+                | .list [.sym "remove", i, k] => do pure (SOp.remove (← i.nat?) (← k.nat?))
+                | _ => none
+              let r := s.step op
+              let tl ← goSt r.1 rest
+              pure (V.list (r.1.cells.map V.ofNats) :: tl)
+          goSt Store.empty ops
+        (st, match r with | some vs => (V.list vs).render | none => "(bad-op)")
       | "fs.run", [.list nodes, .list ops] =>
         -- nodes: ((path kind #bytes) …) with kind file|dir ; ops: (new p now) | (copy src dst) | (open p)
         let mk : V → Option (Nat × Node)
